@@ -616,3 +616,17 @@ Proof.
   - destruct af; [|discriminate]. destruct (put false root p) as [s'|] eqn:Ep; [|discriminate]. injection H as <-.
     rewrite (put_not_url root p s' Ep). destruct gf; repeat split; reflexivity.
 Qed.
+
+(** * PutMany: every element is checked on its own *)
+Theorem batch_confined : forall root af au paths ss,
+  batch_put false af au root paths = Some ss ->
+  Forall2 (fun p s => put_ref false af au root p = PStored s) paths ss /\
+  Forall (fun s => confined root s = true) ss.
+Proof.
+  intros root af au paths. induction paths as [|p r IH]; intros ss H; cbn [batch_put] in H.
+  - injection H as <-. split; constructor.
+  - destruct (put_ref false af au root p) as [s| |] eqn:Ep; try discriminate.
+    destruct (batch_put false af au root r) as [ss'|]; [|discriminate]. cbn [option_map] in H. injection H as <-.
+    destruct (IH ss' eq_refl) as [H1 H2]. split; constructor; try assumption.
+    now apply (read_confined_b root p af au s).
+Qed.
